@@ -311,6 +311,20 @@ func (k *Kernel) mainLoop(ctx context.Context, s *kState, wd *gwatchdog.Watchdog
 		)
 	}()
 
+	// The voting view loaded from the stores may already hold enough precommits
+	// to commit the height or to leave the round
+	// (the process may have stopped right after storing them).
+	// No further message is guaranteed to trigger that check,
+	// so run it once before serving requests.
+	if len(s.Voting.PrecommitProofs) > 0 {
+		if err := k.checkVotingPrecommitViewShift(ctx, s); err != nil {
+			k.log.Warn(
+				"Error while checking view shift for precommits loaded at startup; kernel may be in bad state",
+				"err", err,
+			)
+		}
+	}
+
 	wSig := wd.Monitor(ctx, gwatchdog.MonitorConfig{
 		Name:     "Mirror kernel",
 		Interval: 10 * time.Second, Jitter: time.Second,
